@@ -151,6 +151,19 @@ def resolve_syntatic_sugar(a: ast.AST) -> ast.AST:
                     # We have a dataclass. Turn it into a dictionary
                     signature = inspect.signature(a.func.value)  # type: ignore
                     sig_arg_names = [p.name for p in signature.parameters.values()]
+                    n_positional = len(
+                        [
+                            p
+                            for p in signature.parameters.values()
+                            if p.kind in (p.POSITIONAL_ONLY, p.POSITIONAL_OR_KEYWORD)
+                        ]
+                    )
+                    if len(a.args) > n_positional:
+                        # Keyword-only fields can't be given by position
+                        raise ValueError(
+                            f"Too many positional arguments for dataclass {a.func.value}"
+                            f" - {ast.unparse(node)}."
+                        )
 
                     return self.convert_call_to_dict(a, node, sig_arg_names)
 
